@@ -85,6 +85,12 @@ def install(engine):
 
 
 def const_model(engine, s):
+    if s.startswith('std::iter::Empty::<'):
+        return EmptyIt()
+    if s.startswith('quote::__private::HasIterator'):
+        return Agg('quote::__private::HasIterator', [])
+    if s.startswith('std::marker::PhantomData'):
+        return Agg(None, [])
     return NotImplemented
 
 
@@ -1180,6 +1186,8 @@ def display(e, v, ty=''):
     if isinstance(v, IdentV):
         return v.name
     if isinstance(v, TS):
+        if len(v.items) == 1 and isinstance(v.items[0], TIdent) and not isinstance(v.items[0].name, str):
+            return v.items[0].name
         return ts_to_string(v)
     if isinstance(v, Agg) and v.ty == 'quote::__private::IdentFragmentAdapter':
         return display(e, v.f[0])
